@@ -29,6 +29,7 @@ import Kopf.Lemmas.C16_Keys
 import Kopf.Lemmas.C16_Clear
 import Kopf.Lemmas.C16_StatusClear
 import Kopf.Lemmas.C16_Multi
+import Kopf.Lemmas.C16_Restore
 namespace Kopf.C16
 open Kopf Kopf.J
 
@@ -870,6 +871,47 @@ theorem pending_store_survives_purge (env : Env) (c : AnnCfg) (body patch0 p1 p2
   rw [isolation_other_handler_purge env c body p1 p2 k k' hstab.2 hstab.1 h2 hdisj]
   exact roundtrip_ann env c body patch0 p1 k' r hc hw hs h1
 
+/-- **The record stored LAST is the record read** — whatever the cycle did to the patch before: ANY sequence of
+    stores and purges of ANY handlers (the handler `k` itself included: another record pending for it, a purge of
+    it pending, both, repeatedly) and of touches, all decided on the same object, whatever that object carries
+    (the very record that is stored, for instance).  `roundtrip_ann` holds for any accumulated patch; every
+    operation keeps the patch within its hypotheses. -/
+theorem last_store_wins_ann (env : Env) (c : AnnCfg) (body patch0 p1 p2 : J) (ops : List AnnOp) (k : Str) (r : Rec)
+    (hc : env.dec (env.enc (obj (stored c.verbose r))) = some (obj (stored c.verbose r)))
+    (hw : wf patch0 = true) (hs : MarkStable patch0)
+    (h1 : runAnnOps env c body patch0 ops = .ok p1)
+    (h2 : annStore env c body p1 k r = .ok p2) :
+    annFetch env c (mergePatch body p2) k = .ok (some (obj (stored c.verbose r))) := by
+  have hk := runAnnOps_keeps ops h1 hw hs
+  exact roundtrip_ann env c body p1 p2 k r hc hk.1 hk.2 h2
+
+/-- … and a purge that comes last leaves nothing, whatever was pending for the handler before -/
+theorem last_purge_wins_ann (env : Env) (c : AnnCfg) (body patch0 p1 p2 : J) (ops : List AnnOp) (k : Str)
+    (hw : wf patch0 = true) (hs : MarkStable patch0)
+    (h1 : runAnnOps env c body patch0 ops = .ok p1)
+    (h2 : annPurge env c body p1 k = .ok p2) :
+    annFetch env c (mergePatch body p2) k = .ok none := by
+  have hk := runAnnOps_keeps ops h1 hw hs
+  exact (purge_complete_ann env c body p1 p2 k hk.1 hk.2 h2).2
+
+/-- the instance the seeded change C16f breaks: the handler is purged and its record stored again in one patch -/
+theorem restore_after_purge_ann (env : Env) (c : AnnCfg) (body patch0 p1 p2 : J) (k : Str) (r : Rec)
+    (hc : env.dec (env.enc (obj (stored c.verbose r))) = some (obj (stored c.verbose r)))
+    (hw : wf patch0 = true) (hs : MarkStable patch0)
+    (h1 : annPurge env c body patch0 k = .ok p1)
+    (h2 : annStore env c body p1 k r = .ok p2) :
+    annFetch env c (mergePatch body p2) k = .ok (some (obj (stored c.verbose r))) :=
+  last_store_wins_ann env c body patch0 p1 p2 [.purge k] k r hc hw hs (by simp [runAnnOps, AnnOp.run, h1]) h2
+
+/-- … and: another record of the handler is stored first, then this one -/
+theorem restore_after_store_ann (env : Env) (c : AnnCfg) (body patch0 p1 p2 : J) (k : Str) (r' r : Rec)
+    (hc : env.dec (env.enc (obj (stored c.verbose r))) = some (obj (stored c.verbose r)))
+    (hw : wf patch0 = true) (hs : MarkStable patch0)
+    (h1 : annStore env c body patch0 k r' = .ok p1)
+    (h2 : annStore env c body p1 k r = .ok p2) :
+    annFetch env c (mergePatch body p2) k = .ok (some (obj (stored c.verbose r))) :=
+  last_store_wins_ann env c body patch0 p1 p2 [.store k r'] k r hc hw hs (by simp [runAnnOps, AnnOp.run, h1]) h2
+
 /-- `statusFetch` never answers `null` (a null entry reads as no record) -/
 theorem statusFetch_ne_null (c : StatusCfg) (b : J) (k : Str) (x : J)
     (h : statusFetch c b k = .ok (some x)) : x ≠ null := by
@@ -1008,6 +1050,45 @@ example : ∀ p1 p2, annStore env0 c0 body0 (obj []) k0 r0 = .ok p1 → annPurge
     annFetch env0 c0 (mergePatch body0 p2) k0 = .ok (some (obj [("retries", num 1)])) :=
   fun p1 p2 h1 h2 => pending_store_survives_purge env0 c0 body0 (obj []) p1 p2 "other".toList k0 r0 rfl
     (by decide) markStable_nil h1 h2 (by decide)
+
+/-! `last_store_wins_ann` on an object that ALREADY CARRIES the record which is stored (`bodyA`): non-vacuity, and the
+    witness that the variant `annStoreSkipUnchanged` (seeded change C16f: "no need to re-send what is there") loses it -/
+def kA : Str := "fn".toList
+/-- `body0` after a cycle in which `r0` was stored for `fn` -/
+def bodyA : J :=
+  match annStore env0 c0 body0 (obj []) kA r0 with
+  | .ok p => mergePatch body0 p
+  | .error _ => body0
+
+example : (match annFetch env0 c0 bodyA kA with | .ok (some j) => j == obj [("retries", num 1)] | _ => false) = true := by decide
+
+/-- the theorem applied: purge, another record, a touch, then the record the object carries — it is what is read -/
+example : ∀ p1 p2, runAnnOps env0 c0 bodyA (obj []) [.purge kA, .store kA [("retries", num 9)], .touch (some "t"), .purge kA] = .ok p1 →
+    annStore env0 c0 bodyA p1 kA r0 = .ok p2 →
+    annFetch env0 c0 (mergePatch bodyA p2) kA = .ok (some (obj [("retries", num 1)])) :=
+  fun p1 p2 h1 h2 => last_store_wins_ann env0 c0 bodyA (obj []) p1 p2 _ kA r0 rfl (by decide) markStable_nil h1 h2
+example : (match runAnnOps env0 c0 bodyA (obj []) [.purge kA, .store kA [("retries", num 9)], .touch (some "t"), .purge kA] with
+    | .ok p1 => (match annStore env0 c0 bodyA p1 kA r0 with | .ok _ => true | _ => false) | _ => false) = true := by decide
+
+/-- **The variant that skips "what is already there" loses the record** (seeded change C16f): on the object that carries
+    the record, a purge of the handler followed by the store of that very record in ONE patch leaves the purge's null in
+    the patch — the patched object holds no record; and after another record stored first, that other record is read.
+    (With the real `annStore`: `restore_after_purge_ann`, `restore_after_store_ann`.) -/
+theorem store_skip_unchanged_witness :
+    (match annPurge env0 c0 bodyA (obj []) kA with
+     | .ok p1 =>
+       (match annStoreSkipUnchanged env0 c0 bodyA p1 kA r0 with
+        | .ok p2 => (match annFetch env0 c0 (mergePatch bodyA p2) kA with | .ok none => true | _ => false)
+        | .error _ => false)
+     | .error _ => false) = true ∧
+    (match annStoreSkipUnchanged env0 c0 bodyA (obj []) kA [("spec", obj [("n", num 2)])] with
+     | .ok p1 =>
+       (match annStoreSkipUnchanged env0 c0 bodyA p1 kA r0 with
+        | .ok p2 => (match annFetch env0 c0 (mergePatch bodyA p2) kA with
+                     | .ok (some j) => j == obj [("spec", obj [("n", num 2)])] | _ => false)
+        | .error _ => false)
+     | .error _ => false) = true := by
+  constructor <;> decide
 
 /-- an object without status records, and a patch in which the records of `a` and `b` are pending -/
 def bodyS : J := obj [("metadata", obj [("name", str "x")])]
